@@ -35,12 +35,19 @@ class Canon(ast.NodeTransformer):
       raise E -> raise E();  message-only arguments of a raised exception and the message of an assert are dropped."""
 
     def __init__(self, spec=False):
+        self.bases = []
         self.cls = []
         self.spec = spec      # restatements are bare functions: the class argument of super() cannot be checked there
 
     def visit_ClassDef(self, node):
         self.cls.append(node.name)
+        base = None
+        if len(node.bases) == 1:
+            b = node.bases[0]
+            base = b.id if isinstance(b, ast.Name) else (b.attr if isinstance(b, ast.Attribute) else None)
+        self.bases.append(base)
         self.generic_visit(node)
+        self.bases.pop()
         self.cls.pop()
         return node
 
@@ -170,6 +177,18 @@ class Canon(ast.NodeTransformer):
                 and isinstance(node.args[0], ast.Name) and (self.spec or (self.cls and node.args[0].id == self.cls[-1])) \
                 and isinstance(node.args[1], ast.Name) and node.args[1].id == 'self':
             node.args = []
+        # Base.m(self, a)  with Base the single direct base class  is  super().m(a)
+        f = node.func
+        if isinstance(f, ast.Attribute) and node.args and isinstance(node.args[0], ast.Name) and node.args[0].id == 'self' \
+                and isinstance(f.value, (ast.Name, ast.Attribute)):
+            bname = f.value.id if isinstance(f.value, ast.Name) else f.value.attr
+            known_base = bool(self.bases and self.bases[-1] and self.bases[-1] == bname and bname != 'object')
+            if known_base or (self.spec and isinstance(f.value, ast.Name) and bname[:1].isupper()):
+                sup = ast.Call(func=ast.Name(id='super', ctx=ast.Load()), args=[], keywords=[])
+                node.func = ast.Attribute(value=sup, attr=f.attr, ctx=ast.Load())
+                node.args = node.args[1:]
+                ast.copy_location(node.func, f)
+                ast.fix_missing_locations(node)
         return node
 
     def visit_Raise(self, node):
